@@ -1,4 +1,5 @@
 import PnaVerif.Model.Cli.Edit
+import PnaVerif.Model.Cli.Acl
 import PnaVerif.Model.Canon
 import PnaVerif.Model.Cli.Update
 import PnaVerif.Model.Cli.List
@@ -121,6 +122,30 @@ def handleTransform (toks : List String) : String :=
     match strategy? st, set?, rm?, names? sel, items? items with
     | some st, some set, some rm, some sel, some a => "ok " ++ itemsS (transform st (xattrF (selOf sel) set rm) a)
     | _, _, _, _, _ => "bad-op"
+  | [st, "aclset", modify, remove, sel, items] =>
+    -- an argument on the wire: `-` (absent) or `<default 0|1>:<owner kind 0..5>:<owner name hex>:<text after the owner, hex | ->`
+    let arg? : String → Option (Option AclArg) := fun t =>
+      if t == "-" then some none else
+        match t.splitOn ":" with
+        | [d, k, n, p] =>
+          match k.toNat?, ofHex n, (if p == "-" then some none else (ofHex p).map some) with
+          | some k, some n, some p =>
+            match decodeUtf8 n, (match p with | none => some none | some b => (decodeUtf8 b).map some) with
+            | some n, some p =>
+              let owner : Text.Owner := match k with
+                | 0 => .owner | 1 => .user n | 2 => .ownerGroup | 3 => .group n | 4 => .mask | _ => .other
+              some (some ⟨d == "1", owner, p⟩)
+            | _, _ => none
+          | _, _, _ => none
+        | _ => none
+    match strategy? st, arg? modify, arg? remove, names? sel, items? items with
+    | some st, some m, some r, some sel, some a => "ok " ++ itemsS (transform st (aclSetF (selOf sel) m r) a)
+    | _, _, _, _, _ => "bad-op"
+  | [st, "migrate", items] =>
+    match strategy? st, items? items with
+    | some st, some a =>
+      if (entriesOf a).all (fun e => (migrateE e).isSome) then "ok " ++ itemsS (transform st migrateF a) else "err"
+    | _, _ => "bad-op"
   | [st, "strip", flags, kp, sel, items] =>
     let kp? : Option (Option (List Bytes)) :=
       if kp == "-" then some none else if kp == "." then some (some []) else ((kp.splitOn ",").mapM ofHex).map some
